@@ -689,6 +689,13 @@ let run_c02 ic =
                      if agree && fs <> List.map kv_of (deb_fields arch_deb mi (z_of_int (file_sum / 1024)))
                      then ["the fields read back are not the metadata model's field list although the premise of C02_deb_control_reads_back holds"] else [] end
                    else []))
+            | FArch, Some raw ->
+              incr n_read;
+              (match p_read (explode raw) with
+               | None -> ["the PKGINFO model's reader cannot read the .PKGINFO member"]
+               | Some fs ->
+                 let got = List.map (fun (k, v) -> (implode k, implode v)) fs in
+                 (if got = c.meta then [] else ["the PKGINFO model's reader and the harness's reader find different lines in .PKGINFO"]))
             | _ -> []) in
         let agree = agree && reader_notes = [] in
         if not agree then incr n_dis;
